@@ -131,15 +131,27 @@ def weight_formulas(chk):
                ("1/2 " if cls == "KineticEnergy" else "") + "dq dz (uniform periodic theta and z: rectangle rule)" if ok2 else
                f"_factor2 = {got}, expected {want}; dq/dz definitions ok={okq}", file=rel, func=f"{cls}.__init__")
         # the r Jacobian and (KE) v^2 inside the outer product
-        flats = [src(n.value).replace(" ", "") for n in ast.walk(fn) if isinstance(n, ast.Assign) and src(n.targets[0]) == "self._factor1.flat"]
+        fl_nodes = [n.value for n in ast.walk(fn) if isinstance(n, ast.Assign) and src(n.targets[0]) == "self._factor1.flat"]
+        flats = [src(v).replace(" ", "") for v in fl_nodes]
+
+        def has_prod(e, *factors):
+            """a product whose operands are exactly `factors` (in any order) occurs in e"""
+            for x in ast.walk(e):
+                if any(same_expr(x, " * ".join(perm)) for perm in __import__("itertools").permutations(factors)):
+                    return True
+            return False
+
+        def names_in(e):
+            return {x.id for x in ast.walk(e) if isinstance(x, ast.Name)}
         if cls == "KineticEnergy":
-            okj = all("(mydrMult*my_r)" in f and "(mydvMult*my_v**2)" in f for f in flats) and len(flats) == 2
+            okj = all(has_prod(f, "mydrMult", "my_r") and has_prod(f, "mydvMult", "my_v ** 2") for f in fl_nodes) and len(flats) == 2
             what = "w_r r x w_v v^2"
         elif cls == "l2":
-            okj = sum("(mydrMult*my_r)" in f and "mydvMult" in f for f in flats) == 2 and any(f.replace("(", "").replace(")", "") == "mydrMult*my_r" for f in flats)
+            okj = sum(has_prod(f, "mydrMult", "my_r") and "mydvMult" in names_in(f) for f in fl_nodes) == 2 and \
+                any(same_expr(f, "mydrMult * my_r") for f in fl_nodes)
             what = "w_r r x w_v (4-D) / w_r r (3-D)"
         else:
-            okj = all("(mydrMult*my_r)" in f and "mydvMult" in f and "my_v" not in f for f in flats) and len(flats) == 2
+            okj = all(has_prod(f, "mydrMult", "my_r") and "mydvMult" in names_in(f) and "my_v" not in names_in(f) for f in fl_nodes) and len(flats) == 2
             what = "w_r r x w_v"
         chk.ob("F9-jacobian", fn, f"{cls}: _factor1 integrand weights", okj, what if okj else f"weights are {flats}", file=rel,
                func=f"{cls}.__init__")
@@ -152,7 +164,8 @@ def weight_formulas(chk):
         fbar = sp.Symbol("fbar")
         n_ = NpSym(env={}, hooks={f"{arg}._f": f_, f"{arg}._f.conj()": fbar, "self._factor1": w,
                                    f"np.real({arg}._f)": sp.Symbol("Ref"), f"np.abs(np.real({arg}._f))": sp.Symbol("AbsRef"),
-                                   f"np.real({arg}._f * {arg}._f.conj())": sp.Symbol("Abs2")})
+                                   f"np.real({arg}._f * {arg}._f.conj())": sp.Symbol("Abs2"),
+                                   f"np.real({arg}._f.conj() * {arg}._f)": sp.Symbol("Abs2")})
         want_i = {"l2": sp.Symbol("Abs2") * w, "l1": sp.Symbol("AbsRef") * w, "nParticles": sp.Symbol("Ref") * w,
                   "KineticEnergy": sp.Symbol("Ref") * w}[cls]
         oki = False
@@ -163,7 +176,7 @@ def weight_formulas(chk):
                 oki = alg_equal(got_i, want_i)
             except Undecided as e:
                 got_i = str(e)
-        okr = len(ret) == 1 and src(ret[0].value).replace(" ", "") == "np.sum(points)*self._factor2"
+        okr = len(ret) == 1 and same_expr(ret[0].value, "np.sum(points) * self._factor2")
         oka = any(isinstance(n, ast.Assert) and src(n.test).replace(" ", "") == f"self._layout=={arg}.currentLayout" for n in m.body)
         chk.ob("F9-integrand", pts[0] if pts else m, f"{cls}.{meth}", oki and okr and oka,
                {"l2": "|f|^2", "l1": "|Re f|", "nParticles": "Re f", "KineticEnergy": "Re f"}[cls] +
